@@ -1,11 +1,13 @@
 #!/opt/veriftools/pyvenv/bin/python
 import json,jsonschema,glob,sys
 jsonschema.validate(json.load(open('/verif/MANIFEST.json')), json.load(open('/root/.vp/MANIFEST.schema.json')))
+bad=False
 m=json.load(open('/verif/MANIFEST.json'))
 sch=json.load(open('/root/.vp/EVIDENCE.schema.json'))
 for c in m['checks']:
     try:
         jsonschema.validate(json.load(open(c['evidence_file'])), sch)
     except Exception as e:
-        print('EVIDENCE INVALID', c['property_id'], str(e)[:300]); 
+        print('EVIDENCE INVALID', c['property_id'], str(e)[:300]); bad=True
 print('validated manifest +', len(m['checks']), 'evidence files')
+sys.exit(1 if bad else 0)
